@@ -141,6 +141,15 @@ class Structure(list):
         target[:] = self
         return target
 
+    def __setstate__(self, state):
+        """Restore instance attributes and re-link `Atoms` with the `lattice`.
+
+        Unpickling fills the list before the instance attributes are restored.
+        """
+        self.__dict__.update(state)
+        self.lattice = self._lattice
+        return
+
     def __str__(self):
         """Simple string representation."""
         s_lattice = "lattice=%s" % self.lattice
